@@ -6,7 +6,7 @@ package pcache
 // never returns marker values, never grows beyond its configured size, keeps sumSize/sumTS exact, and reloads
 // from its saved file to the saved contents.
 //
-// Explicit-state BFS over {add(k,v), marker adds, batch adds, get(k), removeByTTL(1|all), setSizeTTL(6 configs),
+// Explicit-state BFS over {add(k,v), marker adds, batch adds, get(k), getBytes(k)+buffer reuse, removeByTTL(1|all), setSizeTTL(6 configs),
 // clock +1/+3, save, reload} with 4 keys of different sizes, injected time (nowUnix is an argument everywhere).
 //
 // AddValues and RemoveByTTL pick eviction candidates by ranging over the Go map, whose order the runtime
@@ -124,7 +124,7 @@ func (se *c21Search) c21Load(file []byte) (*MappingsCache, error) {
 func c21Snapshot(c *MappingsCache) []c21Item {
 	var out []c21Item
 	for k, v := range c.cache {
-		out = append(out, c21Item{k, v.value, v.accessTS})
+		out = append(out, c21Item{strings.Clone(k), v.value, v.accessTS}) // clone: a key must not keep aliasing a caller buffer in the harness state
 	}
 	sort.Slice(out, func(i, j int) bool { return out[i].k < out[j].k })
 	return out
@@ -132,9 +132,10 @@ func c21Snapshot(c *MappingsCache) []c21Item {
 
 type c21Op struct {
 	name   string
-	kind   int // 0 add, 1 get, 2 removeByTTL, 3 setSizeTTL, 4 tick, 5 save, 6 reload
+	kind   int // c21Add ... c21Reload
 	pairs  []MappingPair
 	key    string
+	over   string // what the caller writes into its buffer after a getBytes
 	n      int
 	size   int64
 	ttl    int64
@@ -144,6 +145,7 @@ type c21Op struct {
 const (
 	c21Add = iota
 	c21Get
+	c21GetBytes // GetValueBytes on a slice of a recycled scratch buffer that the harness overwrites right after the call
 	c21Remove
 	c21Config
 	c21Tick
@@ -169,6 +171,12 @@ func c21Ops(keys []string) []c21Op {
 	for _, k := range keys {
 		ops = append(ops, c21Op{name: "get(" + k + ")", kind: c21Get, key: k})
 	}
+	for i, k := range keys {
+		// the caller's buffer is reused after the call: with a same-length string of the probe universe, and with the next
+		// key of the alphabet (different length) written from the start of the buffer
+		ops = append(ops, c21Op{name: "getBytes(" + k + ");buffer:=" + c21Sibling(k), kind: c21GetBytes, key: k, over: c21Sibling(k)})
+		ops = append(ops, c21Op{name: "getBytes(" + k + ");buffer:=" + keys[(i+1)%len(keys)], kind: c21GetBytes, key: k, over: keys[(i+1)%len(keys)]})
+	}
 	ops = append(ops, c21Op{name: "removeByTTL(maxCount=1)", kind: c21Remove, n: 1, ordDep: true})
 	ops = append(ops, c21Op{name: "removeByTTL(maxCount=100)", kind: c21Remove, n: 100})
 	for _, sz := range []int64{70, 112, 1000} {
@@ -180,6 +188,11 @@ func c21Ops(keys []string) []c21Op {
 	ops = append(ops, c21Op{name: "save", kind: c21Save}, c21Op{name: "reload", kind: c21Reload})
 	return ops
 }
+
+// c21Sibling is a string of the same length that is never added: it is only looked up (probe universe).
+func c21Sibling(k string) string { return strings.Repeat("z", len(k)) }
+
+var c21Scratch = sync.Pool{New: func() any { return make([]byte, 16) }}
 
 func c21Marker(v int32) bool {
 	return v == 0 || v == format.TagValueIDMappingFlood || v == format.TagValueIDDoesNotExist
@@ -222,7 +235,11 @@ func c21Perms(n int) [][]int {
 func (se *c21Search) c21Invariants(c *MappingsCache, s *c21State, opName string) (sig, desc string) {
 	var recSize, recTS int64
 	n := 0
-	for _, k := range append([]string{""}, se.keys...) {
+	probe := []string{""}
+	for _, k := range se.keys {
+		probe = append(probe, k, c21Sibling(k))
+	}
+	for _, k := range probe {
 		v, ok := c.GetValue(0, k) // accessTS 0 never updates the access time: a pure observation
 		if !ok {
 			continue
@@ -321,6 +338,16 @@ func (se *c21Search) c21Apply(s *c21State, op *c21Op, order []int, expired map[s
 		p, was := pre[op.key]
 		if ok != was || (ok && v != p.v) || (!ok && v != 0) {
 			return nil, true, "C21:cache-get-wrong-value", fmt.Sprintf("GetValue(%q) = (%d,%v), the cache holds (%d,%v)", op.key, v, ok, p.v, was), false
+		}
+	case c21GetBytes:
+		buf := c21Scratch.Get().([]byte)
+		defer c21Scratch.Put(buf)
+		arg := buf[:copy(buf, op.key)]
+		v, ok := c.GetValueBytes(now, arg)
+		copy(buf, op.over) // the caller reuses its buffer, as the agent's receive path does
+		p, was := pre[op.key]
+		if ok != was || (ok && v != p.v) || (!ok && v != 0) {
+			return nil, true, "C21:cache-get-wrong-value", fmt.Sprintf("GetValueBytes(%q) = (%d,%v), the cache holds (%d,%v)", op.key, v, ok, p.v, was), false
 		}
 	case c21Remove:
 		c.RemoveByTTL(op.n, now)
@@ -543,7 +570,7 @@ func TestVerifC21(t *testing.T) {
 		}
 	}()
 	depth := mc.Pick(5, 7)
-	rep.Rule = "mapping cache: explicit-state BFS (value states, one fresh real MappingsCache per executed operation) over add/marker add/batch add/get/removeByTTL/setSizeTTL/clock/save/reload with 4 keys of different sizes; " +
+	rep.Rule = "mapping cache: explicit-state BFS (value states, one fresh real MappingsCache per executed operation) over add/marker add/batch add/get/getBytes(with the caller overwriting its buffer afterwards)/removeByTTL/setSizeTTL/clock/save/reload with 4 keys of different sizes; " +
 		"every order in which the code can visit the map when it picks eviction candidates is executed (one cache per permutation of the keys); non-trivial = (state, operation) pairs with more than one distinct successor, i.e. the eviction outcome depends on the map order"
 	rep.Bounds["cache_depth"] = depth
 	rep.Bounds["cache_keys"] = "a/bb/cccc/dddddddd and aaaaaaaa/bbbb/cc/d (sizes 33,34,37,42 in both orders of the tie-break)"
